@@ -11,7 +11,7 @@ namespace ChythonModel.Spec
 /-- (file, function, kind, variable, why the result is seed independent) -/
 def reviewedSetSites : List (String × String × String × String × String) := [
   ("algorithms/smiles.py", "Smiles._smiles", "for", "atoms_set",
-   "set of int atom numbers; the loop only accumulates a per-weight counter (commutative), and `min(atoms_set, key=…)` is covered by C01's tie discussion"),
+   "set of int atom numbers; the loop only accumulates a per-weight counter (commutative), and `min(atoms_set, key=…)` is covered by C01's tie discussion; `atoms_set.difference_update(visited)` also passes the str key 'cache' that `_format_bond` leaves in `visited`: discarding a non-member only looks up (seeded start slot) and never changes the table (`discard_spec`)"),
   ("algorithms/rings.py", "Rings.rings_graph", "pop", "atoms",
    "set of int atom numbers: seed-free order; result is a dict of ring-graph atoms whose content does not depend on the start atom"),
   ("algorithms/rings.py", "_connected_components", "pop", "atoms",
